@@ -18,6 +18,7 @@ package main
 //        d<e> / f<e>  the dial started by e returns a connection / an error
 //        r<e> the server answers e        c<e> e's context is cancelled
 //        t    the idle time-out passes (only while no caller is blocked)     C  Close
+//        L    (quic) the peer's stream limit is reached: OpenStreamSync blocks until its context ends
 //        B<k> (pipe) answered exchanges use up the wire ids of the live connection until k of the 65536 are left
 // out  : res=<e>:<ok|err|ctx|pend>,.. cl=<Close calls that returned|hang|panic> open=<connections/sockets still open>
 //        atc=<exchanges still blocked after the first Close had settled> dials=<DialContext calls|->
@@ -254,6 +255,7 @@ type c18qconn struct {
 	cancel          context.CancelFunc
 	mu              sync.Mutex
 	closed          bool
+	limit           bool // op L: no more stream credit
 	streams         []*c18qstream
 }
 
@@ -270,7 +272,22 @@ func (c *c18qconn) OpenStream() (quic.Stream, error) {
 	return s, nil
 }
 
-func (c *c18qconn) OpenStreamSync(context.Context) (quic.Stream, error) { return c.OpenStream() }
+// OpenStreamSync: once the script has said `L` (the peer's stream limit is reached) it blocks until the caller's
+// context ends or the connection is closed, like quic-go does; the connection itself stays healthy.
+func (c *c18qconn) OpenStreamSync(ctx context.Context) (quic.Stream, error) {
+	c.mu.Lock()
+	lim := c.limit
+	c.mu.Unlock()
+	if lim {
+		select {
+		case <-ctx.Done():
+			return nil, context.Cause(ctx)
+		case <-c.ctx.Done():
+			return nil, net.ErrClosed
+		}
+	}
+	return c.OpenStream()
+}
 
 func (c *c18qconn) CloseWithError(quic.ApplicationErrorCode, string) error {
 	c.mu.Lock()
@@ -877,6 +894,16 @@ func c18RunManual(m map[string]string, ops []string, withTimer bool) (out string
 			h.timer()
 		case 'B':
 			h.burn(n)
+		case 'L': // (quic) every live connection is at its peer's stream limit from now on
+			h.mu.Lock()
+			for _, cc := range h.conns {
+				if qc, ok := cc.(*c18qconn); ok {
+					qc.mu.Lock()
+					qc.limit = true
+					qc.mu.Unlock()
+				}
+			}
+			h.mu.Unlock()
 		case 'C':
 			r := c18Call(c18CallMax, func() { h.t.Close() })
 			if r != "ok" {
@@ -1028,6 +1055,11 @@ func c18CloseGen(r *rand.Rand, thorough bool, emit func(c, cat string)) {
 			}
 			emit(c+" ops="+ops, "pipe/id-exhaustion")
 		}
+	}
+	// (quic) exchanges waiting for stream credit on a healthy connection that has a query in flight: their contexts
+	// end, then Close — the connection is still the transport's to close, the query in flight fails
+	for _, ops := range []string{"s1,d1,L,s2,c2,C", "s1,d1,L,s2,s3,c3,c2,C,C", "s1,d1,r1,L,s2,c2,s3,C"} {
+		emit("k=quic auto=0 ops="+ops, "quic/stream-limit")
 	}
 	n := 60
 	if thorough {
